@@ -734,7 +734,7 @@ func init() {
 	fw.Register(&fw.Prop{
 		ID:    "C03",
 		Level: "exploration",
-		Rule: "per child: several trees (the built-in tree and trees enlarged by random Extend histories of 1-10 extensions attached to the root, to built-ins at every depth and to earlier extensions, with predicates: always true/false, prefix, contains, length- and limit-dependent, a copy of a built-in sibling's detector, accepts-the-empty-input); per tree 6000 detections: every seed, then greybox mutation (byte flips, truncation, splices of two seeds, prefix transplant; an input giving a new accept path is kept and mutated further) x limits {0, default, len, random} through Detect and through the un-sliced VerifMatch with a different process-wide limit. Every detector call is recorded (node, buffer pointer, len, limit, answer) and checked online against the first-match depth-first specification, then against the independent iterative walk. In further rounds a second goroutine registers extensions (capture formats at the root, sub-formats below application/pdf / text/plain / earlier extensions) while recorded detections run: each walk must be the first-match walk of ONE version of the tree between the registrations that bracket it. In other rounds a second goroutine keeps calling SetLimit while the recorded detections run: every detector of a walk must see one (header, limit) pair and the header must be the first `limit` bytes for that very limit. " +
+		Rule: "per child: several trees (the built-in tree and trees enlarged by random Extend histories of 1-10 extensions attached to the root, to built-ins at every depth and to earlier extensions, with predicates: always true/false, prefix, contains, length- and limit-dependent, a copy of a built-in sibling's detector, accepts-the-empty-input); per tree 6000 detections: every seed, then greybox mutation (byte flips, truncation, splices of two seeds, prefix transplant; an input giving a new accept path is kept and mutated further) x limits {0, default, len, random} through Detect and through the un-sliced VerifMatch with a different process-wide limit. Every detector call is recorded (node, buffer pointer, len, limit, answer) and checked online against the first-match depth-first specification, then against the independent iterative walk. In further rounds a second goroutine registers extensions (capture formats at the root, sub-formats below application/pdf / text/plain / earlier extensions) while recorded detections run: each walk must be the first-match walk of ONE version of the tree between the registrations that bracket it. In other rounds a second goroutine keeps calling SetLimit while the recorded detections run: every detector of a walk must see one (header, limit) pair and the header must be the first `limit` bytes for that very limit.  A few dozen walks per run go through DetectFile on a named pipe whose writer delivers the file in two pieces with a pause between them." +
 			"non-trivial = reported path of depth >= 2 below the root or >= 2 siblings accepting at some level (measured with the model); distinct = distinct (sequence of accepting nodes, number of detector calls, entry).",
 		Assumptions: []string{
 			"leaf detector funcs are shared between the library and the model (only the walk is independent); their purity is C04's concern",
